@@ -38,6 +38,9 @@ const (
 	errCustom
 	errStd      // a real context.WithCancel, cancelled by the simulator
 	errStdCause // a real context.WithCancelCause: Err() is Canceled, Cause() is something else
+	errStdChild // a value-carrying child of a real cancellable context (cancellation arrives by propagation)
+	errStdPast  // a real context.WithDeadline whose deadline has passed (fires only before the parse)
+	numErrKinds
 )
 
 var errCauseValue = errors.New("zzverif: cancellation cause (not the context's error)")
@@ -73,6 +76,14 @@ func newSimCtx(kind errKind, fireAt int) *simCtx {
 		c.std, c.cancel = context.WithCancel(context.Background())
 	case errStdCause:
 		c.std, c.cancelC = context.WithCancelCause(context.Background())
+	case errStdChild:
+		parent, cancel := context.WithCancel(context.Background())
+		c.cancel = cancel
+		type zzKey struct{}
+		child, _ := context.WithCancel(context.WithValue(parent, zzKey{}, 1))
+		c.std = child
+	case errStdPast:
+		c.std, c.cancel = context.WithDeadline(context.Background(), time.Unix(1, 0))
 	default:
 		c.done = make(chan struct{})
 	}
@@ -87,9 +98,11 @@ func (c *simCtx) fire(kind byte) {
 		c.firedAt.progress = c.rec.maxEnd
 	}
 	switch c.kind {
-	case errStd:
+	case errStd, errStdChild:
 		c.cancel()
 		c.err = context.Canceled
+	case errStdPast:
+		c.err = context.DeadlineExceeded // already expired when it was created
 	case errStdCause:
 		c.cancelC(errCauseValue)
 		c.err = context.Canceled
@@ -144,7 +157,7 @@ func (c *simCtx) Done() <-chan struct{} {
 		k = 'L'
 	}
 	c.tick(k)
-	if c.kind == errStd || c.kind == errStdCause {
+	if c.std != nil {
 		return c.std.Done()
 	}
 	return c.done
@@ -152,7 +165,7 @@ func (c *simCtx) Done() <-chan struct{} {
 
 func (c *simCtx) Err() error {
 	c.errCalls++
-	if c.kind == errStd || c.kind == errStdCause {
+	if c.std != nil {
 		return c.std.Err()
 	}
 	if c.fired {
@@ -424,7 +437,9 @@ func (engine) Run(src *sim.Src, log *sim.Log, res *sim.Result) {
 
 	// 2. input
 	var ntok int
-	switch src.Pick(35, 40, 18, 7) {
+	switch src.Pick(35, 40, 18, 6, 1) {
+	case 4:
+		ntok = src.Range(70000, 140000) // beyond 16-bit counters
 	case 0:
 		ntok = src.Range(20, 600)
 	case 1:
@@ -538,7 +553,10 @@ func (engine) Run(src *sim.Src, log *sim.Log, res *sim.Result) {
 		if fireAt < 0 && fireAt != -2 {
 			fireAt = 0
 		}
-		ek := errKind(src.Pick(4, 2, 2, 3, 2))
+		ek := errKind(src.Pick(4, 2, 2, 3, 2, 2, 0))
+		if fireAt == -2 && src.Chance(1, 4) {
+			ek = errStdPast // an expired deadline only makes sense as 'cancelled before the parse'
+		}
 
 		ctx := newSimCtx(ek, fireAt)
 		rec := &recorder{ctx: ctx, ref: rrec.ev, diverged: -1, stopAt: stopAt, items: items}
@@ -658,7 +676,7 @@ func (engine) Run(src *sim.Src, log *sim.Log, res *sim.Result) {
 
 		// probes + schedule fingerprint
 		if ctx.fired {
-			res.Fault("cancel:" + [...]string{"Canceled", "DeadlineExceeded", "custom-error", "std-WithCancel", "std-WithCancelCause"}[ek])
+			res.Fault("cancel:" + [...]string{"Canceled", "DeadlineExceeded", "custom-error", "std-WithCancel", "std-WithCancelCause", "std-child-of-cancelled-parent", "std-expired-deadline"}[ek])
 			res.Fault(fmt.Sprintf("cancel-at:%c", fk))
 			if fk == 'H' {
 				res.Probe("fired-inside-error-handler")
